@@ -7,8 +7,8 @@ import (
 	"runtime"
 	"strings"
 	"sync"
-	"time"
 	"sync/atomic"
+	"time"
 
 	"verif/core"
 	"verif/drive"
@@ -42,11 +42,12 @@ func init() {
 }
 
 type c20Pair struct {
-	p     *Prog
-	argv  []string
-	solo  string
-	typed bool // declared with the built-in typed variables (Bool/Int/Ints/String/Strings): conversions can fail
-	exit  int  // non-zero: the Action calls Exit(exit) and the After is slow
+	p       *Prog
+	argv    []string
+	solo    string
+	typed   bool // declared with the built-in typed variables (Bool/Int/Ints/String/Strings): conversions can fail
+	exit    int  // non-zero: the Action calls Exit(exit) and the After is slow
+	version bool // the application also declares a version flag
 }
 
 func runC20(c *core.Ctx) {
@@ -58,6 +59,13 @@ func runC20(c *core.Ctx) {
 		p := gen.GenProg(c.R, cfg)
 		if len(pool)%5 == 4 {
 			p = gen.TinyProg(c.R) // identical spec strings with different meanings within one pool
+		}
+		pp := p
+		if np%6 == 5 && len(p.Args) >= 2 {
+			// no spec: the library generates one from the declarations, which must come out the same at every build
+			q := *p
+			q.Spec, q.AST = "", nil
+			pp = &q
 		}
 		typed := len(pool)%3 == 2
 		if typed {
@@ -73,7 +81,7 @@ func runC20(c *core.Ctx) {
 			if hasHelp(argv) {
 				continue
 			}
-			pool = append(pool, c20Pair{p: p, argv: argv, typed: typed})
+			pool = append(pool, c20Pair{p: pp, argv: argv, typed: typed, version: np%7 == 3})
 		}
 	}
 	// long lines (deep recursion in every concurrent parse) and applications that end through Exit after a slow After
@@ -96,6 +104,7 @@ func runC20(c *core.Ctx) {
 		app := drive.Single(pr.p)
 		app.Shared = true
 		app.Builtin = pr.typed
+		app.Version = pr.version
 		if pr.exit != 0 {
 			app.Root.Action = drive.Beh{Kind: drive.BehExit, Code: pr.exit}
 			app.Root.After = drive.Beh{Kind: drive.BehReturn, Spin: 50}
